@@ -284,6 +284,30 @@ def main_scenario(spec_list, res):
         shutil.rmtree(root, ignore_errors=True)
 
 
+def rerun_worker(task):
+    """serial re-run (twice), then slow motion, of one mismatch candidate; returns (candidate, verdict)"""
+    _imports()
+    (c,) = task
+    replies = {int(k): v for k, v in c["replies"].items()}
+    flags = {k: (1 if k == "solver_threads" else v == "True") for k, v in c.get("flags", {}).items()}
+    persists = 0
+    for attempt in range(2):
+        delays = {int(k): float(v) for k, v in c.get("delays", {}).items()} if attempt == 0 else {}
+        res2 = new_result()
+        got2 = scenario(list(c["arms"]), c.get("default_ok") in (True, "True"), replies, delays, flags, res2, "serial-rerun")
+        c.setdefault("rerun_verdicts", []).append(str(got2))
+        if res2.get("candidates"):
+            persists += 1
+    if persists < 2:
+        return c, "mismatch_not_reproduced_serially"
+    # slow motion: every time constant of the scenario (solver time limit, stub sleep, reply delays) x8.  A stub reply that missed the
+    # time limit only because the machine is overloaded arrives in time now; an ordering defect in halmos does not depend on the scale
+    res3 = new_result()
+    got3 = scenario(list(c["arms"]), c.get("default_ok") in (True, "True"), replies, {}, flags, res3, "slow-motion-rerun", scale=8.0)
+    c["slow_motion_verdict"] = str(got3)
+    return c, ("violation" if res3.get("candidates") else "mismatch_not_reproduced_in_slow_motion")
+
+
 def main():
     run = Run("C05", "fault_enumeration")
     _imports()
@@ -351,31 +375,21 @@ def main():
             print("harness problem:", status, str(value)[-400:], flush=True)
     # wall-clock effects (process start-up under load vs. the solver timeout) can distort a scenario: every mismatch is
     # re-run serially, with the machine otherwise idle, and only a mismatch that persists is a violation
-    for c in cands:
+    # the re-runs happen one at a time, each in a worker process of its own: a crash of the harness there (libz3 ending the process
+    # with one of its internal error codes was seen once, in a two-hour run) must not take the verdict with it
+    for item, status, value in report.pmap(rerun_worker, [(c,) for c in cands], soft_timeout=900, nproc=1):
         run.count("mismatch_candidates")
-        res = new_result()
-        replies = {int(k): v for k, v in c["replies"].items()}
-        flags = {k: (1 if k == "solver_threads" else v == "True") for k, v in c.get("flags", {}).items()}
-        persists = 0
-        for attempt in range(2):
-            delays = {int(k): float(v) for k, v in c.get("delays", {}).items()} if attempt == 0 else {}
-            res2 = new_result()
-            got2 = scenario(list(c["arms"]), c.get("default_ok") in (True, "True"), replies, delays, flags, res2, "serial-rerun")
-            c.setdefault("rerun_verdicts", []).append(str(got2))
-            if res2.get("candidates"):
-                persists += 1
-        if persists == 2:
-            # slow motion: every time constant of the scenario (solver time limit, stub sleep, reply delays) x8.  A stub reply that missed the
-            # time limit only because the machine is overloaded arrives in time now; an ordering defect in halmos does not depend on the scale
-            res3 = new_result()
-            got3 = scenario(list(c["arms"]), c.get("default_ok") in (True, "True"), replies, {}, flags, res3, "slow-motion-rerun", scale=8.0)
-            c["slow_motion_verdict"] = str(got3)
-            if res3.get("candidates"):
-                run.violation(c["what"], c, key=c["key"])
-            else:
-                run.count("mismatch_not_reproduced_in_slow_motion")
+        if status != "ok":
+            run.count("mismatch_rerun_" + status)
+            print("harness problem in a re-run:", status, str(value)[-300:], flush=True)
+            continue
+        c, verdict = value
+        if verdict == "violation":
+            run.violation(c["what"], c, key=c["key"])
         else:
-            run.count("mismatch_not_reproduced_serially")
+            run.count(verdict)
+    if run.counters.get("mismatch_rerun_crash", 0) + run.counters.get("mismatch_rerun_killed", 0) + run.counters.get("mismatch_rerun_timeout", 0) > 3:
+        run.inconclusive.append("re-runs of mismatch candidates crashed in the harness")
     run.exhaustive = False
     run.extra["exhaustive_note"] = "thorough tier: all (arms, replies) pairs for k <= 2 and k = 3 on a reduced reply set; quick tier: all k = 1 and a sample of k = 2; larger k, flags and orders are sampled"
     run.samples[:0] = [dict(arms="PK", replies={"0": "unsat", "1": "unknown"}, default_ok=True, expected=["ERROR", "TIMEOUT"])]
